@@ -42,7 +42,7 @@ type profile struct {
 
 func profileOf(i int) profile {
 	p := profile{idx: i, listEvery: []int{1, 1, 2, 4}[i%4]}
-	p.poison = i%5 == 4
+	p.poison = true // F1..F6 are repaired: their families are ordinary (strictly judged) families now
 	p.evict = i%8 == 3
 	p.notFullRBF = i%4 == 1
 	p.noMemIn = i%10 == 7
